@@ -3,6 +3,8 @@
 package transport
 
 import (
+	"fmt"
+	"time"
 	"context"
 	"errors"
 	"io"
@@ -26,6 +28,8 @@ import (
 //	[3, k, how]     k-th open stream (ascending id, k mod n) ends: how 0 = server RST_STREAM,
 //	                1 = client ClientStream.Close(err)
 //	[4, k]          cancel the context of the k-th blocked NewStream call (start order, k mod n)
+//	[6, w]          server sends a SETTINGS frame WITHOUT MAX_CONCURRENT_STREAMS (INITIAL_WINDOW_SIZE or
+//	                MAX_HEADER_LIST_SIZE only): the limit must stay what it was
 //	[5, kind]       kind 0: server GOAWAY(last=MaxInt32, NO_ERROR); 1: client t.Close(); terminal:
 //	                later ops are ignored
 //
@@ -179,6 +183,15 @@ func vStreamQuotaRun(cfg []int64, ops [][]int64) (obs [][]int64, nt bool, tags [
 				k += len(blocked)
 			}
 			blocked[k].cancel()
+		case op[0] == 6 && len(op) == 2:
+			// a SETTINGS frame that does not carry MAX_CONCURRENT_STREAMS
+			sv.wmu.Lock()
+			if op[1]%3 == 0 {
+				sv.fr.WriteSettings(http2.Setting{ID: http2.SettingMaxHeaderListSize, Val: uint32(1<<20 + op[1])})
+			} else {
+				sv.fr.WriteSettings(http2.Setting{ID: http2.SettingInitialWindowSize, Val: uint32(65535 + op[1])})
+			}
+			sv.wmu.Unlock()
 		case op[0] == 5 && len(op) == 2:
 			dead = true
 			if op[1] == 0 {
@@ -264,6 +277,12 @@ func vStreamQuotaRun(cfg []int64, ops [][]int64) (obs [][]int64, nt bool, tags [
 }
 
 func vStreamQuotaExec(cfg []int64, ops [][]int64) (obs [][]int64, nt bool, tags []string) {
+	// real-time bound for one case: a hung or spinning implementation is reported at once
+	// instead of after the go test timeout
+	wd := time.AfterFunc(60*time.Second, func() {
+		panic(fmt.Sprintf("verif StreamQuota: case did not finish within 60s (hang or livelock in the implementation) cfg=%v nops=%d", cfg, len(ops)))
+	})
+	defer wd.Stop()
 	var pv any
 	synctest.Test(vStreamQuotaT, func(t *testing.T) {
 		defer func() {
@@ -304,8 +323,10 @@ func vStreamQuotaGen(r *vRand, tier string, idx int) ([]int64, [][]int64) {
 			ops = append(ops, []int64{2, limits[r.Intn(len(limits))]})
 		case x < 93:
 			ops = append(ops, []int64{3, int64(r.Intn(8)), int64(r.Intn(2))})
-		case x < 98:
+		case x < 96:
 			ops = append(ops, []int64{4, int64(r.Intn(4))})
+		case x < 99:
+			ops = append(ops, []int64{6, int64(r.Intn(1000))})
 		default:
 			if i > n/2 {
 				ops = append(ops, []int64{5, int64(r.Intn(2))})
